@@ -353,8 +353,8 @@ func (st *State) compAxiom(name, symbol, sortStr string, alloc Term) {
 		case "ref":
 			return fmt.Sprintf("(and (<= 0 %s) (<= %s %s))", val, val, alloc.S)
 		case "slice":
-			return fmt.Sprintf("(and (<= 0 (sl_len %s)) (<= (sl_len %s) (sl_cap %s)) (<= (sl_cap %s) 72057594037927936) (<= 0 (sl_off %s)) (<= 0 (sl_arr %s)) (<= (sl_arr %s) %s) (=> (= (sl_arr %s) 0) (= (sl_cap %s) 0)))",
-				val, val, val, val, val, val, val, alloc.S, val, val)
+			return fmt.Sprintf("(and (<= 0 (sl_len %s)) (<= (sl_len %s) (sl_cap %s)) (<= (sl_cap %s) 72057594037927936) (<= 0 (sl_off %s)) (<= (+ (sl_off %s) (sl_cap %s)) 72057594037927936) (<= 0 (sl_arr %s)) (<= (sl_arr %s) %s) (=> (= (sl_arr %s) 0) (= (sl_cap %s) 0)))",
+				val, val, val, val, val, val, val, val, val, alloc.S, val, val)
 		}
 		return fmt.Sprintf("(and (<= %s %s) (<= %s %s))", lo, val, val, hi)
 	}
